@@ -762,5 +762,23 @@ func runC19(want func(string) bool) {
 			pause:      func(r *rng.R) time.Duration { return time.Duration(115000+r.Intn(30000)) * time.Microsecond }, // one frame per push
 			rejectFrom: 1 + r.Intn(3), rejectAlternate: k%4 >= 2})
 	}
+	// the Responder's part of "every delivered batch is eventually acknowledged", against a scripted
+	// stream: an accepted batch is handed over (ScheduleAck) exactly while the previous response is
+	// held by the stream, then nothing more happens - its acknowledgement must still go out
+	for k := 0; k < 6*mult; k++ {
+		sc := &script{failFrom: -1, hold: map[int]time.Duration{0: time.Duration(12+r.Intn(25)) * time.Millisecond}}
+		sc.batches = []batchSpec{
+			{n: 1 + r.Intn(9), out: "accept", waitBlocked: -1, pre: time.Duration(3+r.Intn(20)) * time.Millisecond},
+			{n: 1 + r.Intn(9), out: "accept", waitBlocked: 0},
+		}
+		if k%3 == 2 {
+			sc.hold[1] = time.Duration(5+r.Intn(20)) * time.Millisecond
+			sc.batches = append(sc.batches, batchSpec{n: 1 + r.Intn(9), out: "accept", waitBlocked: 1})
+		}
+		name := fmt.Sprintf("resp-live-%d", k)
+		if want(name) {
+			jobs = append(jobs, func() *caseOut { return runResponderCaseFor("C19", name, sc) })
+		}
+	}
 	runCases(4, jobs)
 }
